@@ -44,6 +44,56 @@ func (ev *Evaluator) EvalBool(e *Expr, src string) *Term {
 	return t
 }
 
+// specSort resolves a sort name of the contract language, including "Map<K,V>" nestings.
+func specSort(name string) (Sort, bool) {
+	name = strings.TrimSpace(name)
+	if s, ok := sortNames[name]; ok {
+		return s, true
+	}
+	if strings.HasPrefix(name, "Map<") && strings.HasSuffix(name, ">") {
+		inner := name[4 : len(name)-1]
+		depth := 0
+		for i, c := range inner {
+			switch c {
+			case '<':
+				depth++
+			case '>':
+				depth--
+			case ',':
+				if depth == 0 {
+					k, ok1 := specSort(inner[:i])
+					v, ok2 := specSort(inner[i+1:])
+					return ArrSort(k, v), ok1 && ok2
+				}
+			}
+		}
+	}
+	return "", false
+}
+
+func elemSortOf(s Sort) Sort {
+	str := string(s)
+	if !strings.HasPrefix(str, "(Array ") {
+		return ""
+	}
+	// (Array K V): V is the last balanced component
+	body := str[len("(Array ") : len(str)-1]
+	depth := 0
+	for i, c := range body {
+		switch c {
+		case '(':
+			depth++
+		case ')':
+			depth--
+		case ' ':
+			if depth == 0 {
+				return Sort(body[i+1:])
+			}
+		}
+	}
+	return ""
+}
+
 var sortNames = map[string]Sort{"Int": SInt, "Bool": SBool, "Str": SStr, "Bytes": SBytes, "Dec": SDec, "Time": SInt, "Addr": SBytes, "Denom": SStr}
 
 func (ev *Evaluator) Eval(e *Expr) Val {
@@ -478,6 +528,48 @@ func (ev *Evaluator) call(e *Expr) Val {
 	case "bank":
 		t := targs()
 		return m.bankSelect(t[0], t[1])
+	case "pend":
+		// pend(val, denom): rewards pending in x/distribution for the module's delegation to val
+		t := targs()
+		return Select(Select(m.GetG("pend", ArrSort(SBytes, ArrSort(SStr, SInt))), t[0]), t[1])
+	case "sel":
+		// sel(array, index)
+		t := targs()
+		es := elemSortOf(t[0].Sort)
+		if es == "" {
+			ev.fail("sel: %s is not an array", t[0].Sort)
+		}
+		return Select(t[0], t[1])
+	case "absfun":
+		// absfun("name", "ResultSort", args...): an uninterpreted function of the representation of its arguments
+		// (sequences contribute their length and per-leaf arrays). Only what assumed/trusted clauses say about it is known.
+		if len(e.Args) < 2 || e.Args[0].Op != "str" || e.Args[1].Op != "str" {
+			ev.fail("absfun(\"name\", \"Sort\", args...)")
+		}
+		rs, ok := specSort(e.Args[1].Name)
+		if !ok {
+			ev.fail("absfun: unknown sort %s", e.Args[1].Name)
+		}
+		var ts []*Term
+		var sorts []Sort
+		for _, a := range e.Args[2:] {
+			switch x := ev.Eval(a).(type) {
+			case *SeqV:
+				xs := m.asSeq(x, x.Elem)
+				ts = append(ts, xs.Len)
+				ts = append(ts, xs.Leaves...)
+			case *ViewV:
+				ev.fail("absfun: pass a field of the view, not the view")
+			default:
+				ts = append(ts, ev.term(x))
+			}
+		}
+		for _, t := range ts {
+			sorts = append(sorts, t.Sort)
+		}
+		fn := "abs_" + sanitize(e.Args[0].Name)
+		E.D.Fun(fn, sorts, rs)
+		return App(rs, fn, ts...)
 	case "supply":
 		return Select(m.Supply(), targs()[0])
 	case "mod":
@@ -721,9 +813,7 @@ func (ev *Evaluator) lookup(name string) Val {
 		}
 	}
 	if strings.HasPrefix(name, "Err") {
-		c := ev.E.D.Const("err_"+sanitize(name), SInt)
-		ev.E.D.Axiom(fmt.Sprintf("(and (> %s 0) (< %s 900))", c.S, c.S))
-		return c
+		return ev.E.sentinelErr(name)
 	}
 	if strings.HasPrefix(name, "g_") {
 		ev.E.declKeys()
